@@ -1,5 +1,5 @@
 """C03 — the hash depends only on the byte stream, not on how it is fed (structural half)."""
-from ..rules import engine, errflow, generator as gen, witness, vis, summary
+from ..rules import engine, errflow, generator as gen, witness, vis, summary, beliefs
 
 EXPL = ("Decides: SA-SIBLING: the per-byte regions of update / update_by_iter / update_by_byte (from the rolling-hash update of the "
         "current byte to the back edge) canonicalise to identical MIR, in release, debug and unsafe builds, and each form iterates its "
@@ -31,6 +31,8 @@ def run(ctx):
         ctx.guard("C03", "declared", lambda: gen.ok_effects_set_fixed(ctx, prog))
         ctx.guard("C03", "summaries", lambda: summary.check(ctx, prog, 'Generator::(input_size|new)$|<internals::generate::Generator as core::(default::Default|ops::AddAssign)|generate_easy', floor=2))
         ctx.guard("C03", "path summaries", lambda: summary.check_paths(ctx, prog, 'Generator::(input_size|new)$|<internals::generate::Generator as core::(default::Default|ops::AddAssign)|generate_easy', floor=0))
+        if c in ("dbg", "unsafe_dbg", "strict_dbg"):
+            ctx.guard("C03", "beliefs", lambda: beliefs.census(ctx, prog, beliefs.SCOPES["C03"][0], floor=beliefs.SCOPES["C03"][1]))
         ctx.guard("C03", "traits", lambda: vis.trait_census(ctx, prog, scope='for internals::generate::Generator$'))
         if c.startswith("unsafe"):
             ctx.guard("C03", "mirror", lambda: engine.mirror(ctx, prog))
